@@ -400,6 +400,64 @@ theorem C03_get_set_agg_map_list_semantics (st : Store) (s : Nat) (k : Nat) :
     · simp [hb, Agent.setAttr, Agent.attr]
     · simp only [hb, if_false] at hmem
 
+/-! ## review round: every parameter combination of `select`, first occurrences, what `set` leaves alone -/
+
+/-- **`select` with every combination of its parameters is one specification**: whatever `filter_func` (given or not),
+    `agent_type` (given or not: `isinstance`, so subclasses qualify) and `at_most` (infinite, an int, or the count derived
+    from a fraction), the selected members are the members that pass both tests, in order — all of them without a limit,
+    the first `k` with one — including the early-return combination (no filter, no type, no limit: every member).
+    `isinstance` on the harness hierarchy is reflexive and transitive. -/
+theorem C03_select_every_parameter_combination (st : Store) (l : List Nat) (pred : Option Pred) (ty : Option Nat)
+    (am : AtMost) :
+    let keep := fun i => (match pred with | some p => p.eval (st.agent i) | none => true) &&
+                         (match ty with | some c => isInst (st.agent i).ty c | none => true)
+    selectIds st l pred ty am = (match am with | .inf => l.filter keep | .count k => (l.filter keep).take k) ∧
+    (∀ t, isInst t t = true) ∧ (∀ a b c, isInst a b = true → isInst b c = true → isInst a c = true) := by
+  refine ⟨?_, fun t => by simp [isInst], fun a b c h1 h2 => ?_⟩
+  · cases am with
+    | count k => cases pred <;> cases ty <;> simp [selectIds, selectGo_some]
+    | inf =>
+      cases pred <;> cases ty <;> simp [selectIds, selectGo_none] <;>
+        exact (List.filter_eq_self.mpr (fun _ _ => rfl)).symm
+  · simp only [isInst, Bool.or_eq_true, Bool.and_eq_true, beq_iff_eq] at h1 h2 ⊢
+    omega
+
+/-- `AgentSet(agents)` keeps the **first** occurrence of every agent, in order (`dict` insertion order): the head of the
+    iterable stays in front, its later copies are dropped, and so on down the iterable — that is `List.eraseDups`. -/
+theorem C03_constructor_keeps_first_occurrences {α : Type} [DecidableEq α] (l : List α) :
+    dedup l = l.eraseDups ∧ ∀ (a : α) (rest : List α), dedup (a :: rest) = a :: dedup (rest.filter (fun b => !b == a)) :=
+  ⟨dedup_eq_eraseDups l, fun a rest => dedup_cons a rest⟩
+
+/-- `set(attr, value)` writes the one attribute of the members and nothing else: an agent outside the set is left exactly
+    as it was; a member gets the value, keeps every other attribute, its identity and its class. -/
+theorem C03_set_writes_members_only (st : Store) (s : Nat) (k : Nat) (v : Int) (j : Nat) (a : Agent)
+    (ha : st.pop[j]? = some a) :
+    ∃ a', (setAttr st s k v).pop[j]? = some a' ∧
+      (a.id ∉ st.get s → a' = a) ∧
+      (a.id ∈ st.get s → a'.attr k = some v ∧ (∀ k', k' ≠ k → a'.attr k' = a.attr k') ∧ a'.id = a.id ∧ a'.ty = a.ty) := by
+  refine ⟨if a.id ∈ st.get s then a.setAttr k v else a, by simp [setAttr, ha], fun h => by simp [h], fun h => ?_⟩
+  simp only [h, if_true]
+  exact ⟨by simp [Agent.setAttr, Agent.attr], fun k' hk => setAttr_attr_other a k k' v hk, rfl, rfl⟩
+
+/-- **The in-place and the copying code path build the same set.**  In the code the copying form ends in
+    `AgentSet(result, random)` and the in-place form in `self._update(result)` (`shuffle`: `self._agents.data = {…}`): both push
+    the result through the same dict comprehension, i.e. through the constructor's de-duplication; the early return of
+    `select` is `self` versus `copy.copy(self)` (= `__setstate__` → `_update(list(keys))`).  On every result the methods
+    build from a duplicate-free set that de-duplication is the identity — so the list the model stores for either flag
+    (`Store.put`) is exactly what either path of the code builds, order included. -/
+theorem C03_both_code_paths_build_the_same_set (st : Store) (h : st.WF) (s : Nat) :
+    dedup (st.get s) = st.get s ∧
+    (∀ pred ty am, dedup (selectIds st (st.get s) pred ty am) = selectIds st (st.get s) pred ty am) ∧
+    (∀ (key : Nat → Int) asc, dedup (sortL key asc (st.get s)) = sortL key asc (st.get s)) ∧
+    dedup (Rng.shuffle (st.get s) st.rng).1 = (Rng.shuffle (st.get s) st.rng).1 ∧
+    (∀ (key : Nat → Int), ∀ g ∈ groupBy key (st.get s), dedup g.2 = g.2) := by
+  have hn := Store.get_nodup h s
+  refine ⟨dedup_of_nodup hn, fun pred ty am => dedup_of_nodup (hn.sublist (selectIds_sublist st _ pred ty am)),
+    fun key asc => dedup_of_nodup ((sortL_perm key asc _).nodup_iff.mpr hn),
+    dedup_of_nodup ((Rng.shuffle_nodup _ _).mpr hn), fun key g hg => ?_⟩
+  rw [((C03_groupby_partitions_in_order key (st.get s)).2.1 g hg).1]
+  exact dedup_of_nodup (hn.sublist List.filter_sublist)
+
 /-! ### non-vacuity: a concrete store exercising the statements above -/
 
 private def demo : Store :=
@@ -413,6 +471,10 @@ example : (sort demo 0 (.attr 0) false false).toOption.map (fun r => r.1.get r.2
     List.MergeSort.Internal.splitInTwo, Except.toOption]
 /-- `select(agent_type=T0, at_most=2)`: T0 and its subclasses T1, T2 qualify, the first two are taken -/
 example : (select demo 0 none (some 0) (.count 2) false).1.get 1 = [0, 1] := by decide
+/-- `select(lambda a: a.x >= 2, agent_type=T1)`: of the members with x ≥ 2 (0, 2, 4) only agent 2 (class T2 ⊂ T1) qualifies -/
+example : selectIds demo [0, 1, 2, 3, 4] (some (.ge 0 2)) (some 1) .inf = [2] := by decide
+example : dedup [3, 1, 3, 2, 1] = [3, 1, 2] := by decide
+example : ((setAttr demo 0 1 9).pop[1]?.map (·.attrs)) = some [(1, 9), (0, 1)] := by decide
 example : (shuffle demo 0 false).1.get 1 = [0, 2, 4, 1, 3] ∧ (shuffle demo 0 false).1.get 0 = [0, 1, 2, 3, 4] := by decide
 example : (group demo 0 (.attr 0) false).toOption.map (·.2) = some [(2, [0, 2, 4]), (1, [1, 3])] := by decide
 example : sort demo 0 (.attr 1) true true = .error .attr ∧ remove demo 0 7 = .error .key := ⟨rfl, rfl⟩
